@@ -1221,6 +1221,7 @@ def stream_sessions(ctx, n, workdir, label="sessions", seed_mul=7919, search=Fal
              "entries_ending_with_fibers_in_the_run_queue": 0, "entries_ending_with_fibers_parked_on_channels": 0,
              "runtime_error_entries_ending_with_fibers_in_the_run_queue": 0, "max_run_queue_at_an_entry_end": 0}
     first = None
+    first_any = None
     CH = 300
     for off in range(0, len(sessions), CH):
         chunk = sessions[off:off + CH]
@@ -1289,10 +1290,16 @@ def stream_sessions(ctx, n, workdir, label="sessions", seed_mul=7919, search=Fal
             stats["output_lines"] += cr.get("stdout", "").count("\n")
             ctx.count_case(session_text(s), nontrivial=(later_sited > 0 and any(entry_fail(e) for e in s)) or bool(
                 pl and pl["stats"]["receives_after_a_runtime_error_entry_since_the_launch"]))
-            if first is None and jr:
+            if jr and first_any is None:
+                first_any = (s, rr, cr, ml, jr)
+            # a search is after a session on which the implementation breaks the property: a model/implementation
+            # disagreement does not end it (the model may only be behind the code)
+            if first is None and jr and (not search or jr[0] == "spec"):
                 first = (s, rr, cr, ml, jr)
         if first:
             break
+    if first is None:
+        first = first_any
     ctx.stream_stat(label, **stats)
     ctx.cov["traces_validated_against_impl"] += stats["sessions"]
     if sessions and not search:
